@@ -52,3 +52,24 @@ def absorb(v, res, rule, level_keys=True):
     v.coverage.setdefault("distribution", {}).update({k: n for k, n in st.items() if k not in ("evaluations", "distinct_nontrivial")})
     for viol in (res.get("violations") or []):
         v.violation(viol["signature"], viol["what"], viol["replay"])
+
+
+def node_harness(v, pid, cmd, tier, seed, rule, timeout=3000):
+    """Run a node-level (RocksDB/raft) harness command; a death of the harness process while a scenario is
+    noted is a violation (a panic inside a goroutine of the code under test cannot be recovered)."""
+    try:
+        s, res = harness(v, pid, "node", cmd, tier, seed, need_rocks=True, timeout=timeout)
+    except HarnessCrash as e:
+        import re
+        m = re.search(r"(panic: [^\n]*|fatal error: [^\n]*|Assertion[^\n]*)", str(e))
+        why = m.group(1) if m else "process died"
+        v.violation("%s:process-death" % pid, "the process hosting the node(s) died during a scenario of `%s`: %s" % (cmd, why[:300]),
+                    dict(kind="process-death", command=cmd, scenario=e.last_input[:4000], seed=seed, tier=tier))
+        v.coverage.setdefault("evaluations", 0)
+        v.coverage["evaluations"] += 1
+        v.coverage.setdefault("distinct_nontrivial", 2)
+        v.coverage["rule"] = rule
+        v.coverage.setdefault("samples", []).append(dict(died_during=e.last_input[:600]))
+        return None, None
+    absorb(v, res, rule)
+    return s, res
